@@ -236,7 +236,10 @@ def first_person_rules(rep, prog, req):
         pm = [S.to_poly(c) for c in S.components(it, m)]
         hint = [S.to_poly(c) for c in S.components(it, captured["args"][1])]
         fwd = [S.to_poly(c) for c in S.components(it, captured["args"][0])]
-    except (A.Undecided, A.Panic, S.NotPolynomial, KeyError) as e:
+    except KeyError:
+        raise common.Infra("C08.P5: FirstPerson::world_to_view no longer builds its basis through mat::orient_z: the rule reads the heading and the sideways "
+                           "hint off that call and cannot decide this form; rule needs re-confirmation")
+    except (A.Undecided, A.Panic, S.NotPolynomial) as e:
         raise common.Infra("C08.P5: FirstPerson::world_to_view could not be evaluated symbolically (%s)" % e)
     rows = [[pm[i * 4 + j] for j in range(4)] for i in range(3)]
 
